@@ -77,6 +77,22 @@ def const_returns(prog, norm):
     return out
 
 
+def _split_top(s):
+    out, depth, cur = [], 0, ""
+    for c in s:
+        if c in "<([":
+            depth += 1
+        elif c in ">)]":
+            depth -= 1
+        if c == "," and depth == 0:
+            out.append(cur)
+            cur = ""
+        else:
+            cur += c
+    out.append(cur)
+    return out
+
+
 class Ranges:
     def __init__(self, prog, fn):
         self.prog = prog
@@ -108,6 +124,40 @@ class Ranges:
         if k == "phi":
             return self.ty_of(e[2][0]) if e[2] else None
         return None
+
+    PRIM = {"u8": 1, "i8": 1, "bool": 1, "u16": 2, "i16": 2, "u32": 4, "i32": 4, "f32": 4, "char": 4, "u64": 8, "i64": 8, "f64": 8, "usize": 8, "isize": 8, "u128": 16, "i128": 16}
+
+    def _elem_size_lb(self, ty, depth=0):
+        """Lower bound (bytes) of the size of the items of a Vec / slice / VecDeque / str type; 0 when
+        the item may be zero-sized or is not understood (then len() is only bounded by usize::MAX)."""
+        t = ty.strip()
+        while t.startswith("&"):
+            t = t[1:].lstrip()
+            if t.startswith("mut "):
+                t = t[4:]
+        if t in ("str", "std::string::String", "alloc::string::String"):
+            return 1
+        m = re.match(r"^(?:std|alloc)::(?:vec::Vec|collections::VecDeque|collections::vec_deque::VecDeque)<(.+?)(?:, .*Global)?>$", t) or re.match(r"^\[(.+?)(?:; \d+(?:_usize)?)?\]$", t)
+        if not m:
+            return 0
+        return self._size_lb(m.group(1), depth)
+
+    def _size_lb(self, t, depth=0):
+        t = t.strip()
+        if t in self.PRIM:
+            return self.PRIM[t]
+        if depth > 3:
+            return 0
+        if t.startswith("(") and t.endswith(")"):
+            parts = [x for x in _split_top(t[1:-1]) if x.strip()]
+            return sum(self._size_lb(x, depth + 1) for x in parts)
+        m = re.match(r"^\[(.+); (\d+)(?:_usize)?\]$", t)
+        if m:
+            return self._size_lb(m.group(1), depth + 1) * int(m.group(2))
+        a = self.prog.adt_of_type(t) if hasattr(self.prog, "adt_of_type") else None
+        if a and a.get("kind") == "Struct" and a["variants"]:
+            return sum(self._size_lb(f["ty"], depth + 1) for f in a["variants"][0]["fields"])
+        return 0
 
     def of(self, e, depth=0):
         """(lo, hi) or None (unknown / not an integer)."""
@@ -169,6 +219,9 @@ class Ranges:
                     return tr  # wrapping / truncating
             return r
         if k == "unop":
+            if e[1] == "PtrMetadata":
+                sz = self._elem_size_lb(self.ty_of(e[2]) or "")
+                return (0, (2**63 - 1) // sz) if sz else (0, 2**64 - 1)
             return ty_range(self.ty_of(e))
         if k == "call":
             nm = callee_name(e) or ""
@@ -179,6 +232,10 @@ class Ranges:
             if is_transparent(e) and e[3]:
                 inner = self.of(e[3][0], depth + 1)
                 return _meet(ty_range(self.ty_of(e)), inner) if inner else ty_range(self.ty_of(e))
+            if last == "len" and nm.startswith(("std::vec::", "alloc::vec::", "core::slice::", "std::collections::", "alloc::collections::", "core::str::", "alloc::string::", "std::string::")) and len(e[3]) == 1:
+                # an allocation is at most isize::MAX bytes (language guarantee): len <= isize::MAX / size_of(item)
+                sz = self._elem_size_lb(self.ty_of(e[3][0]) or "")
+                return (0, (2**63 - 1) // sz) if sz else (0, 2**64 - 1)
             if last in ("min",) and len(e[3]) == 2:
                 a, b = self.of(e[3][0], depth + 1), self.of(e[3][1], depth + 1)
                 if a and b:
